@@ -165,6 +165,17 @@ def run_shard(campaign, shard, nshards, seed, tier):
     part = Part()
     rng = random.Random('%s/%s/%s' % (seed, campaign, shard))
     quick = tier != 'thorough'
+    if campaign == 'both_ways':
+        import C10
+        for i in range((60 if quick else 3000) // nshards + 1):
+            A, B, ma, mb = C10.gen_duplex(rng, tier, rng.random() < 0.6)
+            sched = rng.choice(['rr', 'one', 'random', 'txonly'])
+            pr = run_transfer(rng, A, B, ma, sched, msgs_back=mb)
+            part.hist('sched', 'both_ways/' + sched)
+            sample = {'A': A, 'B': B, 'lens_A': [len(m) for m in ma], 'lens_B': [len(m) for m in mb], 'sched': sched}
+            check_against_model(part, campaign, pr, oracle_transfer(pr, ma, mb), sample, THEOREMS)
+            part.sample(sample)
+        return part.result()
     if campaign == 'transfers':
         n = (240 if quick else 12000) // nshards + 1
         big = False
@@ -188,5 +199,6 @@ def run_shard(campaign, shard, nshards, seed, tier):
 
 def run(ctx):
     run_sharded(ctx, 'C01', 'transfers')
+    run_sharded(ctx, 'C01', 'both_ways')
     run_sharded(ctx, 'C01', 'big')
     return RULE, ASSUME
